@@ -332,8 +332,18 @@ fn validate_fields(input: &Struct, data_type_attrs: &DataTypeAttrs, data_type_at
 
     if !input.named_fields {
         for (data_type_attr, kind, fallible) in data_type_attrs_by_kind {
-            if data_type_attr.quick_return.is_none() && data_type_attr.type_hint == TypeHint::Struct {
+            if data_type_attr.quick_return.is_none() {
                 for field in &input.fields {
+                    // the form that decides is that of the struct the member ends up in: the counterpart itself, or the nested
+                    // struct its #[child(...)] path leads to
+                    let child_is_struct = field.attrs.child(&data_type_attr.ty).is_some_and(|child_attr|
+                        data_type_attrs.child_parents_attr(&data_type_attr.ty).is_some_and(|x|
+                            x.child_parents.iter().any(|p| p.check_match(child_attr.get_child_path_str(None)) && p.type_hint == TypeHint::Struct)));
+
+                    if data_type_attr.type_hint != TypeHint::Struct && !child_is_struct {
+                        continue;
+                    }
+
                     if field.attrs.ghost(&data_type_attr.ty, kind).is_some() || field.attrs.has_parent_attr(&data_type_attr.ty) {
                         continue;
                     }
